@@ -10,4 +10,10 @@ TEXT = {
         technique="Lean 4 reference model + exhaustive/random sequential differential against the real crate",
     ),
 }
+TEXT["C12"] = dict(
+    level_text="Proof: Lean theorems c12_counts / c12_observed / c12_closed_stays / c12_convert — for every reachable state of the atomic-channel model (any capacity, any finite sequence of any API calls, any number of clones/drops/conversions in any order) the counters equal the live-handle ledger while the channel is open and are zero for ever once closed. The model is tied to the code on every run by the sequential differential over clone/convert/borrow/drop/close/count sequences (exhaustive to depth 5-6, random to 50-80) on the real crate.",
+    design_ref="DESIGN.md §5 C12",
+    level_note=NOTE_COMMON + "Counts are Nat (u32 overflow out of scope). Theorems are over atomic steps; concurrent interleavings of clone/drop are covered because each is one critical section (C17).",
+    technique="Lean 4 inductive invariant over the atomic-channel model + sequential differential",
+)
 NOT_YET = {}
